@@ -538,6 +538,7 @@ class SymX:
         self._site: ast.AST | None = None
         self._loop_end: State | None = None
         self._class_consts: dict = {}
+        self.persistent: set[int] = set()  # ids of containers created in class bodies (state shared by all calls)
         self.expanded: set = set()  # `map(f, ...)` terms whose function was applied to every element where the result was consumed
 
     # ------------------------------------------------------------------ entry
@@ -569,6 +570,7 @@ class SymX:
         self._iter_loops = {}
         self._class_consts = {}
         self.expanded = set()
+        self.persistent = set()
         self._ids = itertools.count(self.first_id)
         self.notes = []
         self.mutable_sites = sites
@@ -1514,6 +1516,9 @@ class SymX:
             self._record("mut", ("method", "extend" if op == "+" else "update"), cur, "extend" if op == "+" else "update", (val,), (), st, s, None)
             self._mutate(cur, "extend" if op == "+" else "update", (val,), st)
             return st
+        if isinstance(s.target, ast.Name):
+            # (what is accumulated in a rebound name, e.g. `seen += (x,)`, stays visible to the rules)
+            self._record("aug", ("builtin", "augassign"), cur, s.target.id, (val,), (("op", const(op)),), st, s, None)
         self._assign(s.target, ("binop", op, cur, val), st, None)
         return st
 
@@ -1764,6 +1769,7 @@ class SymX:
                 self.frames.pop()
             if v is not None:
                 self._class_consts[key] = v
+                self.persistent |= {x[1] for x in subterms(v) if x[0] == "box"}  # lives as long as the class: shared by all calls
             return v
         return None
 
